@@ -58,5 +58,8 @@ def harnesses(tier, seed):
             h("c03_commutative_n2", "A+B == B+A (views and versions)", t=3600, mem=24),
             h("c03_mutual_merge_n2", "A'=A+B, B'=B+A': indistinguishable", t=5400, mem=32),
             h("c03_associative_n2", "(A+B)+C == A+(B+C)", t=7200, mem=40),
+            h("c03_prefix_merge_p3_n1", "FIRST condition of the property: two replicas that each applied a gap-free per-origin prefix of a pool of 3 "
+              "operations with arbitrary (any distance) distinct stamps merge each other in both orders: same lookups; re-merge changes nothing",
+              t=7200, mem=40, covers=2),
         ]
     return hs
